@@ -33,8 +33,9 @@ fn reader<'a>(data: &'a [u8], seg: usize) -> ChunkedReader<Script<'a>> {
 fn le_len(w: &[u8]) -> Option<usize> {
     if !w.is_empty() && w[0] == 10 { Some(1) } else if w.len() >= 2 && w[0] == 13 && w[1] == 10 { Some(2) } else { None }
 }
-fn size_line(w: &[u8]) -> Option<(usize, usize)> {
-    let lim = line_max().min(w.len());
+fn size_line(w: &[u8]) -> Option<(usize, usize)> { size_line_lim(w, line_max()) }
+fn size_line_lim(w: &[u8], max: usize) -> Option<(usize, usize)> {
+    let lim = max.min(w.len());
     let k = match w[..lim].iter().position(|&b| b == 10) { Some(i) => i + 1, None => return None };
     let line = if k >= 2 && w[k - 2] == 13 { &w[..k - 2] } else { &w[..k - 1] };
     if line.is_empty() { return None; }
@@ -43,10 +44,12 @@ fn size_line(w: &[u8]) -> Option<(usize, usize)> {
     let n = usize::from_str_radix(s.trim(), 16).ok()?;
     Some((n, k))
 }
-fn fut(mut w: &[u8]) -> (Vec<u8>, bool) {
+fn fut(w: &[u8]) -> (Vec<u8>, bool) { fut_lim(w, line_max()) }
+/// the same with another limit on the chunk-size line (the property does not fix it: a longer line may be accepted or refused)
+fn fut_lim(mut w: &[u8], max: usize) -> (Vec<u8>, bool) {
     let mut out = Vec::new();
     loop {
-        let (n, k) = match size_line(w) { Some(x) => x, None => return (out, false) };
+        let (n, k) = match size_line_lim(w, max) { Some(x) => x, None => return (out, false) };
         w = &w[k..];
         if n == 0 { return (out, le_len(w).is_some()); }
         if w.len() < n {
@@ -227,17 +230,34 @@ fn vp_native_chunked_hostile_inputs_terminate() {
     specials.push({ let mut w = vec![b'0'; line_max() - 1]; w.extend_from_slice(b"\r\n\r\n"); w });
     for wire in &specials { for seg in [1usize, 64, 100_000] {
         let (want, clean) = fut(wire);
+        let (want_u, clean_u) = fut_lim(wire, usize::MAX);   // a chunk-size line longer than the client's own limit is not malformed HTTP
         let mut r = reader(wire, seg);
         let (got, end) = drain(&mut r, &[16, 3, 70_000], 400);
-        assert!(want.starts_with(&got), "delivered bytes are not a prefix of what the wire frames: {:?}...", &wire[..wire.len().min(40)]);
+        assert!(want.starts_with(&got) || want_u.starts_with(&got), "delivered bytes are not a prefix of what the wire frames: {:?}...", &wire[..wire.len().min(40)]);
         if clean { assert!(end.is_ok() && got == want, "a well-formed body must be delivered in full: {:?}... -> {:?}", &wire[..wire.len().min(40)], end); }
+        else if clean_u { assert!(end.is_err() || got == want_u, "a body with an over-long size line is either refused or delivered in full: {:?}...", &wire[..wire.len().min(40)]); }
         else { assert!(end.is_err(), "malformed or truncated body ended with Ok: {:?}... ({} bytes delivered)", &wire[..wire.len().min(40)], got.len()); }
-        // bounded input: a size line without end is given up after the line limit plus what the buffers read ahead
-        let used = r.inner.get_ref().pos;
-        if !clean && size_line(wire).is_none() { assert!(used <= line_max() + 7 + seg, "{} bytes of an endless chunk-size line were consumed (segments of {})", used, seg); }
         cases += 1;
     } }
     println!("VP-NATIVE chunked_hostile_inputs_terminate cases={}", cases);
+}
+
+/// C05: a chunk-size line without end is given up after a bounded amount of input (the line limit plus what the buffers read
+/// ahead), with or without a `;`, whatever precedes it
+#[test]
+fn vp_native_chunked_size_line_input_bound() {
+    let mut cases = 0u64;
+    for prefix in [&b""[..], b"5\r\nhello\r\n"] { for start in [&b"5;"[..], b"5", b"5 ;ext=", b";", b"0;", b"ffff;x=\"q"] { for n in [300usize, 70_000, 3_000_000] { for seg in [1usize, 64, 100_000] {
+        if seg == 1 && n > 70_000 { continue; }
+        let mut wire = prefix.to_vec(); wire.extend_from_slice(start); wire.extend(std::iter::repeat(b'a').take(n));
+        let mut r = reader(&wire, seg);
+        let (got, end) = drain(&mut r, &[16, 70_000], 400);
+        assert!(end.is_err() && b"hello".starts_with(&got), "an endless chunk-size line must be an error: {:?}... -> {:?}", &wire[..20.min(wire.len())], end);
+        let used = r.inner.get_ref().pos;
+        assert!(used <= prefix.len() + line_max() + 7 + seg, "{} bytes of an endless chunk-size line were consumed (line of {} bytes, segments of {})", used, n, seg);
+        cases += 1;
+    } } } }
+    println!("VP-NATIVE chunked_size_line_input_bound cases={}", cases);
 }
 
 /// C19: the data of every chunk that has arrived completely (including its line break) can be read before the reader ever asks
